@@ -1128,9 +1128,21 @@ func (e *Engine) store(st *State, in *ssa.Store) {
 		default:
 			// error-typed fields: track nil-ness
 			if isErrorType(in.Val.Type()) {
-				if c, ok := in.Val.(*ssa.Call); ok {
+				inner := in.Val
+				if mi, ok := inner.(*ssa.MakeInterface); ok {
+					inner = mi.X
+				}
+				if c, ok := inner.(*ssa.Call); ok {
 					if f := c.Call.StaticCallee(); f != nil && (f.Name() == "NewErrorLexer" || f.Name() == "NewError") {
 						st.heap[path] = intVal(1)
+						if path == e.cfg.ErrPath {
+							st.errMsg = "?"
+							for _, a := range c.Call.Args {
+								if k, ok := a.(*ssa.Const); ok && k.Value != nil && k.Value.Kind() == constant.String {
+									st.errMsg = constant.StringVal(k.Value)
+								}
+							}
+						}
 						break
 					}
 				}
